@@ -109,9 +109,86 @@ func freshCompare(c *Check, row *Row, src string, fns []FnSpec, opt bool, mode s
 }
 
 type progOpts struct {
-	freshCompare bool          // C07: also compare every run with a fresh evaluator holding the same variables
-	deadline     time.Duration // per evaluator
-	stepBudget   int64         // > 0: runs are cut off (context cancelled) after this many instructions; the context is re-armed for the next run
+	freshCompare bool            // C07: also compare every run with a fresh evaluator holding the same variables
+	deadline     time.Duration   // per evaluator
+	stepBudget   int64           // > 0: runs are cut off (context cancelled) after this many instructions; the context is re-armed for the next run
+	collector    *traceCollector // when set, a sample of the rows is also recorded instruction by instruction for Trace_VM
+}
+
+// traceCollector gathers recorded executions (code -> spec direction) across rows
+type traceCollector struct {
+	mu     sync.Mutex
+	every  int
+	seen   int
+	progs  []*progDump
+	events []traceEvent
+	runs   int
+	where  []string // script of each run, for diagnostics
+	starts []int
+}
+
+func (tc *traceCollector) want() bool {
+	tc.mu.Lock()
+	defer tc.mu.Unlock()
+	tc.seen++
+	return tc.every <= 1 || tc.seen%tc.every == 0
+}
+
+// add appends the runs of one machine; the program id is assigned here
+func (tc *traceCollector) add(d *progDump, runs [][]traceEvent) {
+	tc.mu.Lock()
+	defer tc.mu.Unlock()
+	d.ID = len(tc.progs) + 1
+	tc.progs = append(tc.progs, d)
+	for _, evs := range runs {
+		evs[0].P = d.ID
+		tc.starts = append(tc.starts, len(tc.events))
+		tc.where = append(tc.where, d.mode+": "+d.script)
+		tc.events = append(tc.events, evs...)
+		tc.runs++
+	}
+}
+
+// validate runs Trace_VM over everything collected and reports a rejection as a disagreement
+func (tc *traceCollector) validate(c *Check) {
+	if tc == nil || len(tc.events) == 0 {
+		return
+	}
+	reached, total, violated, err := validateTrace(c, tc.progs, tc.events, []string{"PromptStop", "FramesSane", "NoUnderflow"})
+	if err != nil {
+		c.fail(err.Error())
+		return
+	}
+	c.extra["trace_events"] = len(tc.events)
+	if violated == "" && reached >= total {
+		c.mu.Lock()
+		c.traces += int64(tc.runs)
+		c.mu.Unlock()
+		return
+	}
+	line := reached - 2
+	if line < 0 {
+		line = 0
+	}
+	if line >= len(tc.events) {
+		line = len(tc.events) - 1
+	}
+	script := ""
+	for i, st := range tc.starts {
+		if st <= line {
+			script = tc.where[i]
+		}
+	}
+	what := "step not allowed by the machine specification"
+	if violated != "" {
+		what = "invariant " + violated + " violated"
+	}
+	next := line + 1
+	if next >= len(tc.events) {
+		next = len(tc.events) - 1
+	}
+	c.disagree(&Disagreement{Kind: "trace-rejected", Script: script, Expected: "every recorded step is a step of Trace_VM",
+		Got: fmt.Sprintf("%s at trace line %d: %s (next: %s)", what, line+1, describeEvent(tc.events[line]), describeEvent(tc.events[next]))})
 }
 
 func compareVars(m *Machine, raw json.RawMessage) (bool, string, string) {
@@ -194,6 +271,20 @@ func replayProgRow(c *Check, row *Row, po progOpts) {
 			c.disagree(&Disagreement{Kind: "prepare-failed", Script: src, Mode: modes[mi], Expected: "accepted", Got: err.Error(), Row: row.Raw})
 			return
 		}
+		var tr *tracer
+		var recorded [][]traceEvent
+		if po.collector != nil && rctx == nil && po.collector.want() {
+			// re-prepare with a re-armable context so that the run can be recorded
+			cancel()
+			rctx = newResetCtx()
+			vars2, _ := rowVars(row)
+			m, err = newMachine(src, vars2, fns, opt, rctx)
+			if err != nil {
+				return
+			}
+			tr = attachTracer(m)
+			defer detachTracer(m)
+		}
 		var si *stepInfo
 		if po.stepBudget > 0 || po.freshCompare {
 			si = m.countSteps(po.stepBudget)
@@ -217,7 +308,14 @@ func replayProgRow(c *Check, row *Row, po progOpts) {
 			if obj != nil && !step.NilObj {
 				objArg = obj
 			}
-			o := m.execAct(step.Act, objArg)
+			var o Outcome
+			if tr != nil && step.Act != "run" {
+				var evs []traceEvent
+				evs, o = tr.tracedRun(m, 0, objArg, 0)
+				recorded = append(recorded, evs)
+			} else {
+				o = m.execAct(step.Act, objArg)
+			}
 			ro := runObs{out: o, calls: describeCalls(o.Calls), vars: describeGlobals(m)}
 			if si != nil {
 				ro.steps = atomic.LoadInt64(&si.n)
@@ -266,6 +364,11 @@ func replayProgRow(c *Check, row *Row, po progOpts) {
 			}
 		}
 		cancel()
+		if tr != nil && len(recorded) > 0 {
+			if d, err := dumpPrepared(src, opt); err == nil {
+				po.collector.add(d, recorded)
+			}
+		}
 	}
 	if row.Repeat {
 		for mi := range modes {
